@@ -99,13 +99,15 @@ def gen(rng, tier):
     if mode == "ok" and rng.random() < 0.12:
         extra["pause_json"] = rng.randint(1, 10)
     extra["pre_same"] = rng.random() < 0.5
+    if rng.random() < 0.2:
+        extra["pre_unit_s"] = rng.choice([30, 60, 90, 120, 600, 3600])
     return {**extra, "sub": subspec, "parent_json": rng.random() < 0.25, "explicit_path": mode != "ok" and rng.random() < 0.5,
             "preconfigure": preconf, "mode": mode, "model": pm, "cfg": pcfg, "ranks": G.gen_ranks(rng, pm), "profile": pp}
 
 
 def extra_candidates(spec):
     from .. import shrink
-    for k_ in ("first_sub", "pause_json"):
+    for k_ in ("first_sub", "pause_json", "pre_unit_s"):
         if spec.get(k_) is not None:
             c = copy.deepcopy(spec)
             c.pop(k_)
@@ -231,6 +233,11 @@ def run(spec):
             return res
         p = newp
         task = [t for t in p.workflow.task_list if t.ID == "sub"][0]
+    if spec.get("pre_unit_s") is not None:
+        # the task was related to a parent project with another time unit before (a what-if study): the last relation counts
+        import datetime as _dt
+        res.count("related_to_another_unit_before")
+        D.call(lambda: task.set_work_amount_progress_of_unit_step_time(_dt.timedelta(seconds=spec["pre_unit_s"])))
     D.call(lambda: task.set_work_amount_progress_of_unit_step_time(p.unit_timedelta))
     if up > us:
         res.count("unit_ratio_gt1")
